@@ -22,7 +22,8 @@ def gen_scenario(rng, prop="C13"):
         for _ in range(rng.randint(1, 3)):
             at += rng.choice([0, 0, 1, 17, 64, 100, 128, 130, 200, 256, 300])
             secs = rng.choice([-5, 0, 1, 5, 64, 100, 127, 128, 129, 200, 256, 300, 500])
-            ops.append(["till", at, secs])
+            # a quarter of the timers are made with an absolute deadline, Till(till=now + secs), also in the past
+            ops.append(["tilla" if rng.random() < 0.25 else "till", at, secs])
             if rng.random() < (0.8 if prop == "C14" else 0.4):
                 ops.append(["wait"])
         threads.append(ops)
@@ -33,7 +34,7 @@ def gen_scenario(rng, prop="C13"):
 
 
 def shape(sc):
-    return "/".join("".join(("T" if o[0] == "till" else "w") for o in t) for t in sc["threads"]) + (":S%s" % sc["stop_at"] if sc["stop_at"] is not None else "")
+    return "/".join("".join(({"till": "T", "tilla": "A"}.get(o[0], "w")) for o in t) for t in sc["threads"]) + (":S%s" % sc["stop_at"] if sc["stop_at"] is not None else "")
 
 
 def run_scenario(sc, chooser=None, seed=0, max_steps=8000, horizon_ticks=1400):
@@ -182,13 +183,16 @@ def run_scenario(sc, chooser=None, seed=0, max_steps=8000, horizon_ticks=1400):
             last = None
             last_deadline = None
             for op in ops:
-                if op[0] == "till":
+                if op[0] in ("till", "tilla"):
                     sched.until(op[1] / TICK)
                     now = int(round(sched.clock * TICK))
-                    sched.note("call", ti, "till", op[2])
+                    sched.note("call", ti, "till" if op[0] == "till" else "tillabs", op[2])
                     n_before = st["nextid"]
                     last_deadline = now + op[2]
-                    t = tillmod.Till(seconds=op[2] / TICK)
+                    if op[0] == "till":
+                        t = tillmod.Till(seconds=op[2] / TICK)
+                    else:
+                        t = tillmod.Till(till=sched.clock + op[2] / TICK)
                     if t is signals.DONE:
                         st["returned_done"].append((ti, op[2], now))
                         last = t
